@@ -58,7 +58,7 @@ var c06DNSCands = []string{
 	"||ads.com^", "||ads.com^$important", "@@||ads.com^", "@@||ads.com^$important", "ads.com^$dnstype=A", "@@||ads.com^$dnstype=A",
 	"||ads.com^$client=~1.1.1.1", "||ads.com^$dnsrewrite=1.2.3.4", "@@||ads.com^$dnsrewrite", "||ads.com^$important,dnsrewrite=NXDOMAIN",
 	"||ads.com^$badfilter", "||ads.com^$important,badfilter", "@@||ads.com^$badfilter", "@@||ads.com^$important,badfilter", "ads.com^$dnstype=A,badfilter",
-	"||ads.com^$denyallow=x.com", "@@||ads.com^$ctag=~tv",
+	"||ads.com^$denyallow=x.com", "@@||ads.com^$ctag=~tv", "@@||ads.com^$stealth", "@@||ads.com^$stealth,important",
 	"||ads.com^$dnsrewrite=1.2.3.4,badfilter", "||ads.com^$dnsrewrite=NXDOMAIN,badfilter", "@@||ads.com^$dnsrewrite,badfilter",
 	"||ads.com^$dnsrewrite=NOERROR;NS;ns1.example.net", "||ads.com^$dnsrewrite=NOERROR;SOA;x,important", "||ads.com^$dnsrewrite=NOERROR;CAA;0 issue x",
 }
